@@ -8,6 +8,7 @@ package main
 import (
 	"fmt"
 	"go/types"
+	"strconv"
 	"strings"
 
 	"golang.org/x/tools/go/ssa"
@@ -109,6 +110,17 @@ func checkC14(w *World, r *Recorder) propInfo {
 					set = dom
 				}
 				set = inter(set, dom)
+				if len(p.Rets) == 1 && p.Rets[0].Kind == KLin {
+					// a result computed from the argument ("base + v>>12"): constant on each
+					// block of the argument, so the path splits into one cell per block
+					if cells, okC := shiftCells(p.Rets[0], term, set); okC {
+						for k, c := range cells {
+							byState[k] = union(byState[k], c)
+						}
+						covered = union(covered, set)
+						continue
+					}
+				}
 				if len(p.Rets) != 1 || p.Rets[0].Kind != KInt {
 					r.Undecide("C14-map", "LifeCycleToState#result", w.InstrPos(p.Ret), fmt.Sprintf("result %s for %s is not a constant state", p.Rets, set))
 					bad = true
@@ -369,3 +381,50 @@ func c14Getter(w *World, r *Recorder, fn *ssa.Function, dom, valid iset) {
 }
 
 var _ = types.Typ
+
+// shiftCells: the result a = (x>>k)+c or (x/k)+c, x the argument restricted to
+// `set` (non-negative, at most 4096 blocks): the value of a on each block.
+func shiftCells(a AV, x string, set iset) (map[int64]iset, bool) {
+	t := a.Term
+	if !strings.HasPrefix(t, "("+x) || !strings.HasSuffix(t, ")") {
+		return nil, false
+	}
+	body := t[1+len(x) : len(t)-1]
+	var mul int64
+	switch {
+	case strings.HasPrefix(body, ">>"):
+		k, err := strconv.ParseInt(body[2:], 10, 64)
+		if err != nil || k < 0 || k > 40 {
+			return nil, false
+		}
+		mul = int64(1) << uint(k)
+	case strings.HasPrefix(body, "/"):
+		k, err := strconv.ParseInt(body[1:], 10, 64)
+		if err != nil || k <= 0 {
+			return nil, false
+		}
+		mul = k
+	default:
+		return nil, false
+	}
+	if set.empty() {
+		return map[int64]iset{}, true
+	}
+	if set.min() < 0 || set.max()/mul > 4096 {
+		return nil, false
+	}
+	out := map[int64]iset{}
+	for _, i0 := range set {
+		for q := i0.lo / mul; q <= i0.hi/mul; q++ {
+			lo, hi := q*mul, q*mul+mul-1
+			if lo < i0.lo {
+				lo = i0.lo
+			}
+			if hi > i0.hi {
+				hi = i0.hi
+			}
+			out[q+a.K] = union(out[q+a.K], iset{{lo, hi}})
+		}
+	}
+	return out, true
+}
